@@ -563,7 +563,9 @@ func (r *multiCIDRRangeAllocator) occupyCIDRs(logger klog.Logger, node *corev1.N
 		if len(node.Spec.PodCIDRs) == 0 {
 			return nil
 		}
-		clusterCIDRList, err := r.orderedMatchingClusterCIDRs(node, true)
+		// The node already uses these CIDRs: they have to be marked as used, and the node has to be
+		// associated, also when the ClusterCIDR they come from is terminating.
+		clusterCIDRList, err := r.orderedMatchingClusterCIDRs(node, false)
 		if err != nil {
 			return err
 		}
